@@ -169,9 +169,22 @@ def _spec_of_case(case):
     return case["spec"]
 
 
+P_NONE = [["none"]]  # get_asm returns None: "no insertion takes place"
+
+
 def _atoms(spec, target):
     pats = [P_ORD, P_ORD2] if target.startswith("mips") else [P_ORD, P_LABEL]
-    return scen.atoms_for(spec, pats, data_patches=[P_DATA], max_del=2)
+    atoms = scen.atoms_for(spec, pats, data_patches=[P_DATA], max_del=2)
+    if target == "x64-elf" and spec["sections"][0].get("part") == "one" and len(spec["sections"][0]["blocks"]) == 2:
+        # declining patches, as insertions and as replacements, on code blocks (2-block shapes)
+        for s_ in spec["sections"]:
+            for b in s_["blocks"]:
+                if b["k"] == "c":
+                    n = len(b["i"])
+                    atoms.append({"op": "ins", "b": b["n"], "k": 0, "p": P_NONE})
+                    for k in range(n):
+                        atoms.append({"op": "rep", "b": b["n"], "k": k, "n": 1, "p": P_NONE})
+    return atoms
 
 
 def input_bytes(spec):
@@ -182,6 +195,12 @@ def input_bytes(spec):
 
 def check(spec, mods):
     outcome, diffs, w, E, O = run_scenario(spec, mods, ["bytes"])
+    if diffs and any(m["op"] == "rep" and isinstance(m.get("p"), list) and any(t[0] == "none" for t in m["p"]) for m in mods):
+        # a declined replacement: the statement does not say whether the range goes away - accept either reading
+        alt = dict(spec, declined_rep_deletes=True)
+        o2, d2, w2, E2, O2 = run_scenario(alt, mods, ["bytes"])
+        if not d2:
+            return o2 + ";declined-replacement-removed-range", d2, E2
     return outcome, diffs, E
 
 
